@@ -187,7 +187,10 @@ def EXTRA_SHAPES():
     return [
         # orthogonal regions of exactly 8 sub-states (a whole unit of the request bits) followed / preceded by another
         # orthogonal region: unit arithmetic of BitArray views inside the registry
-        (P('(C h1 i0 composite (L i0) (O h1 i0 (L i0) (L i0)) (O h1 i0 (L i0) (L i0) (L i0) (L i0) (L i0) (L i0) (L i0) (L i0)))'),
+        # … and an orthogonal region whose LATER prong holds a nested composite region (a request of a batch must be
+        # forwarded into every flagged prong, and resolved below it)
+        (P('(C h1 i0 composite (L i0) (O h1 i0 (C h1 i0 composite (L i0) (L i0)) (C h1 i0 composite (L i0) (C h1 i0 composite (L i0) (L i0)))) '
+           '(O h1 i0 (L i0) (L i0) (L i0) (L i0) (L i0) (L i0) (L i0) (L i0)))'),
          [dict(), dict(bottomup=1, manual=1, log=2)]),
         # utility regions nested in utility regions: a nested region's utility is its head's times that of the
         # sub-state it would activate, on the change / utilize / randomize paths, headed and anonymous
